@@ -3,10 +3,10 @@
 Writes seeded/MATRIX.json: which checks report a new violation for which change."""
 import json, os, subprocess, sys
 VERIF = os.path.dirname(os.path.dirname(os.path.abspath(__file__)))
-root = sys.argv[1] if len(sys.argv) > 1 else os.path.join(VERIF, "seeded")
+root = os.path.abspath(sys.argv[1] if len(sys.argv) > 1 else os.path.join(VERIF, "seeded"))
 only = sys.argv[2:] 
 props = [c["property_id"] for c in json.load(open(os.path.join(VERIF, "MANIFEST.json")))["checks"]]
-out = {}
+out = json.load(open(os.path.join(root, "MATRIX.json"))) if (only and os.path.exists(os.path.join(root, "MATRIX.json"))) else {}
 def sh(*a, **k): return subprocess.run(a, stdout=subprocess.PIPE, stderr=subprocess.STDOUT, text=True, **k)
 assert sh("git", "-C", "/repo", "diff", "--quiet").returncode == 0, "/repo dirty"
 for sid in sorted(os.listdir(root)):
